@@ -99,6 +99,11 @@ HARNESS = {
     "h_mpi": dict(src="h_mpi.cpp", cxx="clang++", flags=["-O1", "-g", "-fsanitize=undefined", "-fno-sanitize-recover=undefined"],
                   inc=MPI_INC, libs=["-lrapidcheck", "-ltbb", "-lboost_timer"] + MPI_LIBS),
     "h_conc": dict(src="h_conc.cpp", cxx="clang++", flags=["-O1", "-g"] + SAN, libs=["-lrapidcheck", "-ltbb", "-lboost_timer"]),
+    # uninstrumented builds for the valgrind-memcheck pass of C07 (uninitialised reads; there is no MSan-instrumented libstdc++ here)
+    "h_exact_vg": dict(src="h_exact.cpp", cxx="clang++", flags=["-O1", "-g", "-gdwarf-4"], libs=["-lrapidcheck", "-ltbb", "-lboost_timer"]),
+    "h_approx_vg": dict(src="h_approx.cpp", cxx="clang++", flags=["-O1", "-g", "-gdwarf-4"], libs=["-lrapidcheck", "-ltbb", "-lboost_timer"]),
+    "h_comp_vg": dict(src="h_comp.cpp", cxx="clang++", flags=["-O1", "-g", "-gdwarf-4"], libs=["-lrapidcheck", "-ltbb", "-lboost_timer"]),
+    "h_dimacs_vg": dict(src="h_dimacs.cpp", cxx="clang++", flags=["-O1", "-g", "-gdwarf-4"], libs=["-lrapidcheck", "-ltbb"]),
     "h_comp": dict(src="h_comp.cpp", cxx="clang++", flags=["-O1", "-g"] + SAN, libs=["-lrapidcheck", "-ltbb", "-lboost_timer"]),
 }
 
@@ -475,6 +480,8 @@ def replay_once(binp, pid, path, env, timeout=120, launcher=None, workdir=None):
 
 def crash_summary(out):
     for line in out.splitlines():
+        if re.match(r"==\d+== (Conditional jump|Use of uninitialised|Invalid|Syscall param|Mismatched|Source and destination)", line):
+            return line.strip()[:300]
         if "ERROR: AddressSanitizer" in line or "runtime error:" in line or "ERROR: LeakSanitizer" in line \
                 or "Assertion" in line or "ThreadSanitizer" in line or "terminate called" in line:
             return line.strip()[:300]
@@ -483,6 +490,10 @@ def crash_summary(out):
 
 
 def crash_class(out):
+    if re.search(r"^==\d+== (Conditional jump or move depends on uninitialised|Use of uninitialised|Syscall param .* uninitialised)", out, re.M):
+        return "valgrind-uninitialised-value"
+    if re.search(r"^==\d+== (Invalid (read|write|free)|Mismatched free|Source and destination overlap)", out, re.M):
+        return "valgrind-invalid-access"
     if "AddressSanitizer" in out:
         m = re.search(r"AddressSanitizer: ([\w-]+)", out)
         return "asan-" + (m.group(1) if m else "error")
@@ -1159,7 +1170,17 @@ C07_SUBRUNS = [
     ("h_alg", "C18", {}, (1, 2), (3000, 40000)),
     ("h_dimacs", "C10", {}, (1, 4), (4000, 40000)),
 ]
-C07_KEEP = re.compile(r"(asan-|ubsan|leak|assert|crash|terminate|foreign-edge|hang|signal)")
+VALGRIND = ["valgrind", "--error-exitcode=88", "--exit-on-first-error=yes", "--quiet", "--leak-check=no", "--num-callers=12"]
+C07_VG_SUBRUNS = [
+    # harness, property, env, shards(quick, thorough), cases(quick, thorough)
+    ("h_exact_vg", "C07E", {"VERIF_MAXN": "10"}, (2, 6), (120, 600)),
+    ("h_approx_vg", "C07A", {"VERIF_MAXN": "10"}, (1, 4), (120, 600)),
+    ("h_comp_vg", "C14", {"VERIF_MAXN": "10"}, (1, 2), (120, 600)),
+    ("h_comp_vg", "C13", {"VERIF_MAXN": "20"}, (0, 1), (0, 1000)),
+    ("h_comp_vg", "C16", {"VERIF_MAXN": "20"}, (0, 1), (0, 1000)),
+    ("h_dimacs_vg", "C10", {}, (1, 2), (400, 4000)),
+]
+C07_KEEP = re.compile(r"(asan-|ubsan|leak|assert|crash|terminate|foreign-edge|hang|signal|valgrind)")
 
 
 def run_c07(pid, tier):
@@ -1171,7 +1192,7 @@ def run_c07(pid, tier):
     shutil.rmtree(workdir, ignore_errors=True)
     os.makedirs(workdir)
     bins = {}
-    hn = sorted(set(x[0] for x in C07_SUBRUNS))
+    hn = sorted(set(x[0] for x in C07_SUBRUNS) | set(x[0] for x in C07_VG_SUBRUNS if x[3][ti] > 0))
     with ThreadPoolExecutor(max_workers=len(hn)) as ex:
         for h, b in zip(hn, ex.map(build_harness, hn)):
             bins[h] = b
@@ -1185,9 +1206,20 @@ def run_c07(pid, tier):
             for i in range(shards[ti]):
                 futs.append((h, sub, e, ex.submit(run_shard, bins[h], sub, sd * 1000 + 700 + idx, cases[ti], e, [], workdir, idx, 3000)))
                 idx += 1
+        vfuts = []
+        for h, sub, env, shards, cases in C07_VG_SUBRUNS:
+            e = dict(env)
+            e["VERIF_TRACE_CURRENT"] = "1"
+            for i in range(shards[ti]):
+                vfuts.append((h, sub, e, ex.submit(run_shard, bins[h], sub, sd * 1000 + 800 + idx, cases[ti], e, [], workdir, idx, 3000, 100, VALGRIND)))
+                idx += 1
         for h, sub, e, f in futs:
             r = f.result()
-            r["binp"], r["sub"], r["env"] = bins[h], sub, e
+            r["binp"], r["sub"], r["env"], r["launcher"] = bins[h], sub, e, None
+            results.append(r)
+        for h, sub, e, f in vfuts:
+            r = f.result()
+            r["binp"], r["sub"], r["env"], r["launcher"] = bins[h], sub, e, VALGRIND
             results.append(r)
     ev, hashes, classes, excluded, samples = merge_stats(results)
     violations, notes = [], []
@@ -1217,14 +1249,14 @@ def run_c07(pid, tier):
                 continue
             if hard and key != "hang":
                 try:
-                    text = minimise_crash_case(r["binp"], pid, text, r["env"], workdir, key)
+                    text = minimise_crash_case(r["binp"], pid, text, r["env"], workdir, key, launcher=r.get("launcher"))
                 except Exception as exn:
                     notes.append("minimisation failed: %s" % exn)
             path = os.path.join(NEWDIR, "%s-%s.case" % (pid, hashlib.sha1(text.encode()).hexdigest()[:16]))
             with open(path, "w") as f:
                 f.write("# key %s\n# %s\n" % (fk, msg.replace("\n", " ")[:400]))
                 f.write(text)
-            ok, k2, m2 = confirm_and_report(r["binp"], pid, path, r["env"], timeout=(600 if key == "hang" else 120))
+            ok, k2, m2 = confirm_and_report(r["binp"], pid, path, r["env"], launcher=r.get("launcher"), timeout=(600 if key == "hang" else 120))
             if ok and not any(v[0] == fk for v in violations):
                 violations.append((fk, m2 or msg, path))
             elif not ok:
@@ -1251,13 +1283,15 @@ def run_c07(pid, tier):
                          "ForestIndex, SpVecGF2, fp/primes/SpVecFP and the DIMACS reader are re-run in binaries built with -fsanitize=address,undefined "
                          "(-fno-sanitize-recover, detect_stack_use_after_return, library asserts enabled) and __lsan_do_recoverable_leak_check() after every "
                          "25 cases so that a leak is attributed to a window of cases. Oracle: no ASan/UBSan/LSan report, no failed assert, no crash, and no "
-                         "returned edge descriptor that is not an edge of the caller's graph. Non-trivial = the sub-generators' own non-trivial classes "
+                         "returned edge descriptor that is not an edge of the caller's graph. A second phase runs uninstrumented builds of the exact, "
+                         "approximate, collection and DIMACS generators under valgrind memcheck (--exit-on-first-error) for uninitialised-value and "
+                         "invalid-access errors. Non-trivial = the sub-generators' own non-trivial classes "
                          "(empty graph / single vertex / forest / disconnected for the algorithms; spanner kept a cycle and dropped an edge; ...), distinct by case text.",
                     samples=samples, classes=classes, subruns=[dict(harness=h, generator=sub) for h, sub, _, _, _ in C07_SUBRUNS],
                     semantic_failures_ignored=ignored, committed_replays=n_replayed, notes=notes[:20],
                     violations_found=[dict(key=k, message=m, replay=p) for k, m, p in violations])
     write_evidence(pid, tier, sd, "exploration", coverage,
-                   ["uninitialised reads are not visible to ASan/UBSan (no MSan-instrumented libstdc++ in this image)",
+                   ["uninitialised reads are only visible to the valgrind-memcheck phase (uninstrumented builds, few hundred cases per generator; no MSan-instrumented libstdc++ in this image)",
                     "the MPI entry points are exercised by C04 under UBSan only"], time.time() - t0, len(violations))
     shutil.rmtree(workdir, ignore_errors=True)
     for k, m, p in violations:
